@@ -119,7 +119,7 @@ func TestC10(t *testing.T) {
 			return
 		case 0:
 			// end to end: a table id announced again with other column types must be decoded with the new ones
-			c := drawRebind(rt, 0)
+			c := drawRebind(rt, rapid.SampledFrom([]int{0, 1, 1}).Draw(rt, "rebind_mode")) // re-announced / re-bound (also to a name that differs only in case)
 			rec.Case(true, c, "e2e/re-announced-table-map")
 			journal("C10", "c15rebind", c)
 			if err := checkRebind(c); err != nil {
@@ -193,6 +193,7 @@ func c10HistOpt() gen.HistOpt {
 	o := gen.DefaultHistOpt(limits(), false)
 	o.MaxUnits, o.MaxTables, o.MaxCols = 8, 2, 8
 	o.BigBase = false
+	o.Scale = false
 	o.Col = gen.ColumnOpt{Only: []byte{refenc.TTiny, refenc.TShort, refenc.TInt24, refenc.TLong, refenc.TLongLong, refenc.TFloat, refenc.TDouble, refenc.TYear, refenc.TBit, refenc.TString}, NoHeavy: true}
 	return o
 }
